@@ -350,6 +350,10 @@ class EnvStep(Contract):
         if not (isinstance(res, tuple) and len(res) == 5):
             return out
         obs_arr, reward, done, limit_flag, info = res
+        is_bool = lambda x: isinstance(x, bool) or (isinstance(x, SymV) and x.ty == "bool")
+        out.append(("C10.terminal-and-limit-flags-are-booleans", z3.BoolVal(is_bool(done) and is_bool(limit_flag))))
+        if not (is_bool(done) and is_bool(limit_flag)):
+            return out
         s0 = ival(S.old["env"]["steps"])
         s1 = ival(env.fields["steps"])
         out.append(("C06.counter", s1 == s0 + 1))
@@ -395,14 +399,21 @@ class EnvReset(Contract):
 
     qualname = "nasim.envs.environment.NASimEnv.reset"
     callable_by_contract = False      # inlined by NASimEnv.__init__
-    tags = {"C04": ("C04",), "C06": ("C06",), "C10": ("C10",), "C03": ("C03",), "raises": ("C04", "C10"),
+    # the episode state a reset produces (counter, state, observation) is the same in every mode: the clauses hold on
+    # every path through the mode switches, so they also carry C12 (modes do not change the dynamics) and C06 (counter)
+    tags = {"C04": ("C04", "C12", "C06"), "C06": ("C06",), "C10": ("C10",), "C03": ("C03",), "raises": ("C04", "C10"),
             "frame": ("C04", "C19")}
+
+    def variants(self):
+        return ["default", "seed-given"]
 
     def setup(self, I, variant):
         sig, T, st, env, a = env_setup(I, None)
         S = Scope(sig=sig)
         S.a = {"self": env}
-        S.call_args = ([env], {})
+        # gymnasium's reset(seed=...) seeds the environment's own generator (self.np_random, assumed dependency
+        # contract); the process-wide NumPy generator that the dynamics draw from is not the environment's to re-seed
+        S.call_args = ([env], {} if variant == "default" else {"seed": SymV(z3.Int("reset_seed"), "int"), "options": None})
         return S
 
     def snapshot(self, I, S):
